@@ -637,6 +637,10 @@ pub fn add_dev_classes(suite: &str, rng: &mut Rng, sink: &mut Sink, thorough: bo
             let op = gen_join_rxc_noise(suite, region, rng, i);
             sink.case(&op, &eval(&op), "join-rxc-noise", true);
         }
+        for i in 0..(if thorough { 12 } else { 2 }) {
+            let op = gen_dev_adr_silent(suite, region, rng, i % 2 == 0);
+            sink.case(&op, &eval(&op), "device-adr-silent-run", true);
+        }
     }
 }
 
@@ -798,7 +802,7 @@ pub fn oracle_c05_dev(op: &str, outs: &[String]) -> String {
 
 /// every device-level oracle that applies to the async front-end, in one
 pub fn oracle_dev_all(op: &str, outs: &[String]) -> String {
-    for f in [oracle_c04_dev as fn(&str, &[String]) -> String, oracle_c06_dev, oracle_c10_dev, oracle_c05_dev, oracle_c07_join_twin] {
+    for f in [oracle_c04_dev as fn(&str, &[String]) -> String, oracle_c06_dev, oracle_c10_dev, oracle_c05_dev, oracle_c07_join_twin, oracle_c12_dev_silent] {
         let r = f(op, outs);
         if r != "ok" {
             return r;
@@ -927,7 +931,7 @@ pub fn oracle_c05_nb(op: &str, outs: &[String]) -> String {
 
 /// … and to the non-blocking front-end
 pub fn oracle_nb_all(op: &str, outs: &[String]) -> String {
-    for f in [oracle_c04_dev as fn(&str, &[String]) -> String, oracle_c06_dev, oracle_c10_nb, oracle_c05_nb] {
+    for f in [oracle_c04_dev as fn(&str, &[String]) -> String, oracle_c06_dev, oracle_c10_nb, oracle_c05_nb, oracle_c12_dev_silent] {
         let r = f(op, outs);
         if r != "ok" {
             return r;
@@ -1126,6 +1130,166 @@ pub fn oracle_c07_join_twin(op: &str, outs: &[String]) -> String {
             }
         } else if a != b {
             return format!("FAIL:twin-differs-after-join-at-{}", i);
+        }
+    }
+    "ok".into()
+}
+
+/// A long run of uplinks that nobody answers, on either front-end, with the application calling
+/// `set_adr(true)` again here and there (an application that re-applies its settings before every
+/// send), switching ADR off and on once, and overriding the data rate: the header bits and the
+/// back-off of C12 seen through the front-ends' own `set_adr` / `set_datarate`.
+pub fn gen_dev_adr_silent(suite: &str, region: &str, rng: &mut Rng, nb: bool) -> String {
+    let drs = uplink_drs(region);
+    let top = *drs.iter().filter(|d| **d <= 5).max().unwrap_or(&0);
+    let n = 70 + rng.below(70) as usize;
+    let off_on_at = if rng.chance(1, 3) { Some(rng.below(60) as usize) } else { None };
+    let redundant = rng.below(3); // 0: never, 1: before every send, 2: now and then
+    let line;
+    if nb {
+        let mut h = NHist::new(suite, region, rng.next() & 0xffffff, 0, 100);
+        h.ev(&format!("abp {}", DEVADDR));
+        h.ev(&format!("dr {}", top));
+        let mut ts = 1000u32;
+        for i in 0..n {
+            if h.dead {
+                break;
+            }
+            if off_on_at == Some(i) {
+                h.ev("adr 0");
+                h.ev("adr 1");
+            }
+            if redundant == 1 || (redundant == 2 && rng.chance(1, 10)) {
+                h.ev("adr 1");
+            }
+            ts += 8000;
+            h.ev(&format!("nsend 1 0 {:02x}", i % 256));
+            h.ev(&format!("nradio txdone {}", ts));
+            for _ in 0..4 {
+                h.ev("ntimeout");
+            }
+        }
+        h.ev("snap");
+        line = h.done();
+    } else {
+        let mut h = AHist::new(suite, region, rng.next() & 0xffffff, 15, 40, rng.chance(1, 3), 57);
+        h.abp();
+        h.ev(&format!("dr {}", top));
+        for i in 0..n {
+            if off_on_at == Some(i) {
+                h.ev("adr 0");
+                h.ev("adr 1");
+            }
+            if redundant == 1 || (redundant == 2 && rng.chance(1, 10)) {
+                h.ev("adr 1");
+            }
+            h.asend(1, false, &[(i % 256) as u8], &[]);
+        }
+        h.ev("snap");
+        line = h.done();
+    }
+    line
+}
+
+/// C12 at device level for histories in which nothing is ever received (every uplink ends in
+/// RxComplete): ADR bit iff ADR is enabled; ADRACKReq iff ADR is enabled, at least 64 uplinks have
+/// passed without an accepted downlink and a lower data rate exists; the rate steps down after
+/// 96, 128, … such uplinks. `set_adr(false)` restarts the count, `set_adr(true)` does not.
+pub fn oracle_c12_dev_silent(op: &str, outs: &[String]) -> String {
+    let (hd, evs) = crate::macsuites::split_events(op);
+    let w: Vec<&str> = hd.split_whitespace().collect();
+    if w.len() < 3 {
+        return "ok".into();
+    }
+    let region = w[2];
+    let table = crate::macsuites::dr_table(region);
+    let lower_exists = |dr: u8| (0..dr).any(|d| table.get(d as usize).cloned().flatten().is_some());
+    let next_lower = |dr: u8| (0..dr).rev().find(|d| table.get(*d as usize).cloned().flatten().is_some());
+    // only histories of abp / dr / adr / snap / silent uplinks
+    for e in &evs {
+        let e0 = e.split_whitespace().next().unwrap_or("");
+        let ok = match e0 {
+            "abp" | "dr" | "adr" | "snap" | "nsend" | "ntimeout" => !e.contains('|'),
+            "nradio" => e.split_whitespace().nth(1) == Some("txdone") && !e.contains('|'),
+            "asend" => e.split('|').nth(1).map(|s| s.split_whitespace().all(|x| x == "O")).unwrap_or(false),
+            _ => false,
+        };
+        if !ok {
+            return "ok".into();
+        }
+    }
+    let mut adr = true;
+    let mut cnt: u32 = 0;
+    let mut dr: Option<u8> = None;
+    let mut open = false; // nb: an uplink whose procedure has not completed yet
+    for (e, out) in evs.iter().zip(outs.iter()) {
+        let ws: Vec<&str> = e.split_whitespace().collect();
+        match ws[0] {
+            "adr" => {
+                adr = ws[1] == "1";
+                if !adr {
+                    cnt = 0;
+                }
+            }
+            "dr" => dr = ws[1].parse().ok(),
+            "asend" | "nsend" => {
+                let up = match out.split_whitespace().find_map(|f| f.strip_prefix("up=")) {
+                    Some(u) if u != "-" => u,
+                    _ => return "ok".into(), // not sent (state error …): other oracles judge that
+                };
+                let f: Vec<&str> = up.split(',').collect();
+                if f.len() != 9 {
+                    return "FAIL:uplink-not-decodable".into();
+                }
+                let d = match dr {
+                    Some(d) => d,
+                    None => return "ok".into(),
+                };
+                let want_req = adr && cnt >= 64 && lower_exists(d);
+                if (f[2] == "1") != adr {
+                    return format!("FAIL:dev-adr-bit-{}-expected-{}", f[2], adr);
+                }
+                if (f[3] == "1") != want_req {
+                    return format!("FAIL:dev-adrackreq-{}-expected-{}-(cnt={},dr={})", f[3], want_req, cnt, d);
+                }
+                let completed = if ws[0] == "asend" { out.contains("Ok(RxComplete)") } else { true };
+                if !completed {
+                    return "ok".into();
+                }
+                if ws[0] == "nsend" {
+                    open = true;
+                } else if adr {
+                    cnt = cnt.saturating_add(1);
+                    if cnt >= 96 && (cnt - 64) % 32 == 0 {
+                        if let Some(l) = next_lower(d) {
+                            dr = Some(l);
+                        }
+                    }
+                }
+            }
+            "ntimeout" => {
+                if open && out.contains("=> RxComplete") {
+                    open = false;
+                    if adr {
+                        cnt = cnt.saturating_add(1);
+                        if let Some(d) = dr {
+                            if cnt >= 96 && (cnt - 64) % 32 == 0 {
+                                if let Some(l) = next_lower(d) {
+                                    dr = Some(l);
+                                }
+                            }
+                        }
+                    }
+                }
+            }
+            "snap" => {
+                if let (Some(s), Some(d)) = (parse_snap(out), dr) {
+                    if !open && s.dr != d {
+                        return format!("FAIL:dev-datarate-{}-expected-{}-after-{}-silent-uplinks", s.dr, d, cnt);
+                    }
+                }
+            }
+            _ => {}
         }
     }
     "ok".into()
